@@ -48,6 +48,9 @@ func TestMain(m *testing.M) {
 			"rewriting a full export into its digest-only form (values replaced by their hashes, flag 1) is not generated as an alteration: the format gives a replica no way to tell it from an export of a truncated primary",
 			"deliveries that wait for a missing predecessor are bounded by a context timeout chosen by the harness; an error caused by that timeout is not a refusal (the transaction may have been precommitted)",
 			"a replica of a replica (re-export of digest-only transactions) is not driven",
+			"out of order / concurrently, an honest export may be refused with errors other than the documented ones (e.g. after a discard the in-memory precommit watcher is not moved back, so a delivery that should wait fails at once): the replicator retries, so only 'a refusal has no effect' and 'in-order delivery on an idle replica succeeds' are asserted",
+			"an export refused with 'buffer is full' (window of uncommitted transactions exhausted) has already been written after the last precommitted transaction and is found precommitted after a restart: tolerated, because it is a transaction the replica would have accepted with room in the window (it matters only together with K7a / skipIntegrityCheck)",
+			"store level has no live primary: 'a replica commits only after the primary did' and the acknowledgement rule are checked at database level; the database-level test does not restart the primary, does not discard and does not alter exports",
 			"pkg/replication's replicator and the gRPC stream are only exercised by the thorough-tier smoke run (TestE2EReplicatorSmoke); if loopback sockets are unavailable it is reported as skipped, never as a pass",
 			"liveness bounds (60 s per round, 30 s for a commit/indexing to become visible) only guard against hangs; no outcome depends on the wall clock",
 		},
@@ -460,6 +463,7 @@ type replica struct {
 	discardedForged   map[uint64]bool
 	discardsSinceOpen int    // DiscardPrecommittedTxsSince calls since the store object was opened
 	everHeld2         bool   // the replica has held a transaction with id >= 2 at some point (K7e)
+	everHeld1         bool   // the replica has held a transaction at some point: its tx log is not empty
 	retired           bool   // holds a committed transaction that is not the primary's: only its prefix is compared
 	forgedAt          uint64 // first id that is not the primary's (0: none)
 
@@ -475,6 +479,9 @@ func (r *replica) state() rstate {
 	s.count = r.st.TxCount()
 	if s.p >= 2 {
 		r.everHeld2 = true
+	}
+	if s.p >= 1 {
+		r.everHeld1 = true
 	}
 	return s
 }
@@ -1083,7 +1090,7 @@ func (h *harness) stepReopen(r *replica) {
 		r.refused++
 		r.pendingRefusal = true
 	}
-	if after.p == 0 && before.p > 0 && vk.Excluded(kfStaleBl) {
+	if after.p == 0 && r.everHeld1 && vk.Excluded(kfStaleBl) {
 		// known finding K7e: the store is back at the empty history with used tx holders: tx 1 would now be stored with
 		// a stale BlRoot (here: bytes of the values block the recovery tried to read as a header)
 		vk.CountExcluded(kfStaleBl)
@@ -1210,6 +1217,12 @@ func (h *harness) stepAltered(r *replica) {
 		}
 		// refused without effect: the last transaction is still intact, the honest one still goes through (checked by the next rounds)
 		h.c.Label("altered-refused")
+		if errors.Is(err, store.ErrBufferIsFull) && (skip || a.class == altUnbound) {
+			// the window of uncommitted transactions was full: the store had already written the (acceptable) forgery
+			// after the last precommitted transaction; a restart finds it there (like a discarded forged transaction)
+			r.discardedForged[before.p+1] = true
+			h.c.Label("forgery-refused-after-being-written-(window-full)")
+		}
 		if skip {
 			h.c.Label("altered-refused-with-skipIntegrity")
 		}
@@ -1364,6 +1377,12 @@ func (h *harness) stepAlteredRace(r *replica) {
 			(errors.Is(res[0].err, store.ErrMaxActiveTransactionsLimitExceeded) || errors.Is(res[0].err, store.ErrBufferIsFull))
 		if !windowFull {
 			h.failf(r, dump, "%s: the honest export of the next transaction was refused (%v) while altered copies of it were delivered", desc, res[0].err)
+		}
+		for i, a := range alts {
+			if errors.Is(res[i+1].err, store.ErrBufferIsFull) && (skip || a.class == altUnbound) {
+				r.discardedForged[id] = true // written after the last precommitted transaction before being refused: a restart may find it
+				h.c.Label("forgery-refused-after-being-written-(window-full)")
+			}
 		}
 		r.refused++
 		r.pendingRefusal = true
